@@ -1,6 +1,6 @@
 """C04 — renumbering keeps every modelled reference pointing at the same object.
 
-prove       : lean/MontePyVerif/Props/C04.lean (look-up is the inverse of "write the pointee's number" by C06's
+prove       : lean/MontePyVerif/Props/C04.lean + Props/C04Core.lean (end to end from the file read to the file written; look-up is the inverse of "write the pointee's number" by C06's
               invariant; frame theorem; induction over renumbering histories; swap corollary)
 correspond  : unit U-links — Model/Renumber.lean (link, setNumber, write) vs MontePy read / number setters /
               write_to_file; the written file is read by the Lean Spec (drv_spec) and compared number by number
@@ -23,6 +23,12 @@ META = {
 }
 
 THEOREMS = [
+    "C04_end_to_end",
+    "C04_link_establishes_wf",
+    "C04_unedited_roundtrip",
+    "C04_roundtrip_literal_partial",
+    "C04_roundtrip_literal_refuted",
+    "C04_wellFormedB_sound",
     "C04_resolve",
     "C04_resolve_universe",
     "C04_only",
@@ -168,7 +174,7 @@ def _model_request(case, nf0):
 def _compare(case, res, den1, rm):
     """canonical difference between the model's prediction and the real code, or None"""
     if rm.get("link") != "ok":
-        return {"what": "model cannot link a file MontePy reads", "model": rm}
+        return {"what": "model cannot link a file MontePy reads" + (" although it is WellFormed (contradicts C04_end_to_end)" if rm.get("wellFormed") else ""), "model": rm}
     if res["outs"] != rm["outs"]:
         return {"what": "setter outcomes differ", "impl": res["outs"], "model": rm["outs"]}
     api = res["numbers"]
@@ -220,7 +226,7 @@ def run(chk):
     ]
     leanio.prove(chk, "MontePyVerif.Props.C04", THEOREMS, "MontePyVerif.Renumber")
     if chk.thorough:
-        leanio.leanchecker(chk, ["MontePyVerif.Props.C04"])
+        leanio.leanchecker(chk, ["MontePyVerif.Props.C04Core", "MontePyVerif.Props.C04"])
     drv = leanio.Driver(chk, "drv_c04")
 
     # ------------------------------------------------------------------ texts
@@ -333,6 +339,23 @@ def run(chk):
     model_out = drv.batch(model_in)
     model = dict(zip(model_idx, model_out)) if model_out is not None else {}
 
+    # C04_end_to_end says: a file that is WellFormed (Spec/Refs.lean: wellFormedB) always links.  Files MontePy
+    # refuses with a link error must therefore not be well-formed.
+    seen_text = set()
+    for i, (c, r) in enumerate(zip(cases, impl)):
+        if r["read"] in ("BrokenObjectLinkError", "KeyError") and case_den0[i] is not None and c["text"] not in seen_text:
+            seen_text.add(c["text"])
+            try:
+                nf = c04lib.extract(case_den0[i])[0]
+            except c04lib.NotInScope:
+                continue
+            out = drv.batch([{"file": nf, "ops": []}])
+            if out is not None:
+                chk.count("link-refused:well-formed" if out[0].get("wellFormed") else "link-refused:not-well-formed")
+                if out[0].get("wellFormed"):
+                    chk.broken_obligation("correspondence", "U-links: MontePy refuses to link a file that satisfies WellFormed (C04_end_to_end: link succeeds)",
+                                          {"read": r["read"]}, dict(c, ops=[]))
+
     for i, (c, r) in enumerate(zip(cases, impl)):
         chk.count("origin:" + origin[i])
         if r["read"] != "ok":
@@ -365,6 +388,7 @@ def run(chk):
             for name, _, _ in c04lib.sites(nf0s[i], []).values():
                 chk.count("site:" + name)
             chk.count("site:mt-card", sum(1 for m in nf0s[i]["mats"] if m["mt"] is not None))
+            chk.count("site:fill-matrix-entry", sum(len(x["fill"]) for x in nf0s[i]["cells"] if len(x["fill"]) > 1))
         chk.note_case({"text": c["text"], "ops": c["ops"]}, accepted > 0 and nsites > 0, sample_every=400)
         verdict = c04lib.judge(c, r, d0, db, d1)
         if verdict is not None:
@@ -383,6 +407,8 @@ def run(chk):
             continue  # the state is corrupt: do not compare the rest of this case with the model
         if i in model:
             chk.traces_validated += 1
+            # the hypothesis of C04_end_to_end, decided by the Lean Spec on this very file
+            chk.count("hypothesis:well-formed" if model[i].get("wellFormed") else "hypothesis:NOT-well-formed")
             diff = _compare(c, r, d1, model[i])
             if diff is not None:
                 chk.disagreements_checked += 1
